@@ -434,13 +434,9 @@ Lemma is_singleton_spec d : wf_fd d ->
   (fd_is_singleton d = true <-> exists v, forall z, mem d z <-> z = v).
 Proof.
   destruct d as [lo hi|l]; cbn [wf_fd fd_is_singleton mem].
-  - intros H. unfold sat_add. rewrite Z.eqb_eq. split.
-    + intros E. assert (hi - lo + 1 < isize_max \/ isize_max <= hi - lo + 1) as [L|L] by lia.
-      * rewrite clamp_id in E by (unfold in_isize, isize_min, isize_max in *; lia).
-        exists lo. intros z. lia.
-      * rewrite clamp_ge_max in E by auto. unfold isize_max in E. lia.
-    + intros [v Hv]. assert (lo = v) by (apply Hv; lia). assert (hi = v) by (apply Hv; lia). subst.
-      replace (v - v + 1) with 1 by lia. apply clamp_id. unfold in_isize, isize_min, isize_max. lia.
+  - intros H. rewrite Z.eqb_eq. split.
+    + intros E. exists lo. intros z. lia.
+    + intros [v Hv]. assert (lo = v) by (apply Hv; lia). assert (hi = v) by (apply Hv; lia). lia.
   - intros [Hne Hs]. destruct l as [|x [|y l]]; [congruence| |].
     + split; auto. intros _. exists x. cbn [In]. intros z. split; [intros [->|[]]; auto| intros ->; auto].
     + split; [discriminate|]. intros [v Hv]. exfalso.
@@ -461,20 +457,16 @@ Proof.
     assert (fd_is_singleton d = true) by (apply is_singleton_spec; eauto). congruence.
 Qed.
 
-(* guard under which the saturating subtraction in copy_before does not clamp *)
-Definition copy_guard (d : fd) : Prop :=
-  match d with Interval lo hi => isize_min < lo /\ hi <= isize_max | Sparse _ => True end.
-
-Lemma copy_before_spec p d : wf_fd d -> copy_guard d ->
+Lemma copy_before_spec p d : wf_fd d ->
   res_spec (fd_copy_before p d)
            (fun z => mem d z /\ forall y, mem d y -> y <= z -> p y = false).
 Proof.
-  destruct d as [lo hi|l]; cbn [wf_fd copy_guard fd_copy_before]; intros Hwf Hg.
+  destruct d as [lo hi|l]; cbn [wf_fd fd_copy_before]; intros Hwf.
   - destruct (find_first p (zrange lo hi)) as [u|] eqn:E.
     + apply find_first_some in E as [H1 [H2 H3]]; [|apply zrange_sorted].
-      apply In_zrange in H1. unfold sat_sub. rewrite clamp_id by (unfold in_isize; lia).
-      destruct (Z.ltb_spec (u - 1) lo) as [L|L]; cbn [res_spec wf_fd mem].
-      * intros z [Hz H]. assert (u = lo) by lia. subst u. rewrite (H lo) in H2; [discriminate|lia|lia].
+      apply In_zrange in H1.
+      destruct (Z.eqb_spec u lo) as [L|L]; cbn [res_spec wf_fd mem].
+      * intros z [Hz H]. subst u. rewrite (H lo) in H2; [discriminate|lia|lia].
       * split; [lia|]. intros z. split.
         -- intros Hz. split; [lia|]. intros y Hy Hle. apply H3; [apply In_zrange; lia|lia].
         -- intros [Hz H]. split; [lia|]. destruct (Z.le_gt_cases u z) as [L'|L']; [|lia].
